@@ -56,6 +56,13 @@ def run(chk):
                        "Probes are placed by re-running the script and adding calls at u+E-1,u+E,u+E+1,u+2E-1,u+2E,u+2E+1 of observed completions u. "
                        "non-trivial = at least one call exactly at such a boundary; distinct = distinct script line")
     chk.run_proof_gate(cc.PROOFS)
+    try:
+        # step-level stream of C04 (cooperative scheduler on the cachex hooks): the part with clock ticks inside the
+        # calls and the regression schedules, with the C05 monitor "Get2 (nil, nil) while the key is servable"
+        from . import c04s
+        c04s.run(chk, [l for l in pure.corpus_cases("C04") if l.startswith("c04s ")], light=True)
+    except Exception as ex:
+        chk.infra_errors.append("call-steps stream failed: %r" % (ex,))
     binary = cc.build_ft(chk)
     if binary:
         try:
